@@ -53,6 +53,9 @@ def one_case(rng, R, sample=False):
         elif lay < 0.25:
             tag = np.asfortranarray(tag)
             R.count('filter:non-contiguous-matrices')
+        elif lay < 0.35:
+            tag, dep = tag.astype(np.float64) + 1e-9, dep.astype(np.float64) + 1e-9     # the caller's own arrays, whatever their dtype
+            R.count('filter:float64-matrices')
         scores.append(ScoringResult(tag, dep))
     dict_words = rng.sample(vocab, rng.randint(0, len(vocab)))
     cat_dict = {}
@@ -71,7 +74,7 @@ def one_case(rng, R, sample=False):
     n_out = sum(t.word not in cat_dict for s in doc for t in s)
     R.case(wit if False else (wit['words'], sorted(wit['dict'].items()), before_tag[0].tobytes()[:64]), n_in > 0 and n_out > 0)
     kwargs = {} if neg is None else {'large_negative_value': neg}
-    negv = np.float32(-10e+32 if neg is None else neg)
+    negv = np.float64(-10e+32 if neg is None else neg)        # cast to each matrix's own dtype where it is compared
     try:
         if single:
             rdoc, rscores = apply_category_filters(doc[0], scores[0], cats, cat_dict, **kwargs)
@@ -90,10 +93,10 @@ def one_case(rng, R, sample=False):
                 listed = np.zeros(ncat, dtype=bool)
                 for c in cat_dict[tok.word]:
                     listed[cats.index(c)] = True
-                want = np.where(listed, before_tag[si][ti], negv)
+                want = np.where(listed, before_tag[si][ti], negv.astype(row.dtype))
             else:
                 want = before_tag[si][ti]
-            if row.tobytes() != want.astype(np.float32).tobytes():
+            if row.tobytes() != want.astype(row.dtype).tobytes():
                 R.violation('catdict:mask', f'sentence {si} token {ti} ({tok.word!r}, {"in" if tok.word in cat_dict else "not in"} the '
                             f'dictionary): row {row.tolist()} expected {want.tolist()}', dict(wit, sentence=si, token=ti))
                 return
